@@ -85,15 +85,18 @@ MRecv == /\ mpc = "recv" /\ mb["M"] # <<>> /\ mb' = [mb EXCEPT !["M"] = Tail(@)]
 MBcast(t) == /\ mpc = "bcast" /\ t \in bc
              /\ mb' = IF rx[t] THEN [mb EXCEPT ![t] = Append(@, "abort")] ELSE mb      \* a failed send is ignored
              /\ bc' = IF BroadcastPolicy = "stop_on_error" /\ ~rx[t] THEN {} ELSE bc \ {t}
-             /\ mpc' = IF bc' = {} THEN "joinP" ELSE "bcast"
+             /\ mpc' = IF bc' = {} THEN "join" ELSE "bcast"
              /\ UNCHANGED <<rx, ppc, wpc, why, fails, joined>>
-MJoin(t, cur, nxt) == /\ mpc = cur /\ Pc(t) = "dead"
-                      /\ mpc' = nxt /\ joined' = joined \cup {t}
-                      /\ UNCHANGED <<mb, rx, ppc, wpc, why, fails, bc>>
+\* join() of one worker returns once that thread has fully exited; the order of the two joins is an
+\* implementation detail (any order: run() returns when both are joined)
+MJoin(t) == /\ mpc = "join" /\ t \notin joined /\ Pc(t) = "dead"
+            /\ joined' = joined \cup {t}
+            /\ mpc' = IF joined' = Workers THEN "exit" ELSE "join"
+            /\ UNCHANGED <<mb, rx, ppc, wpc, why, fails, bc>>
 
 Poller == PStart \/ PTop \/ PQuery \/ PSend \/ PWait \/ Drop("P") \/ Close("P")
 Writer == WStart \/ WRecv \/ Drop("W") \/ Close("W")
-Main == MRecv \/ (\E t \in Workers : MBcast(t)) \/ MJoin("P", "joinP", "joinW") \/ MJoin("W", "joinW", "exit")
+Main == MRecv \/ (\E t \in Workers : MBcast(t)) \/ (\E t \in Workers : MJoin(t))
 Next == Poller \/ Writer \/ Main \/ (\E t \in Workers, k \in {"panic", "return"} : Fail(t, k))
 
 \* every live thread keeps taking steps (timeouts expire, the scheduler is fair); failures are not forced
@@ -108,5 +111,5 @@ NoEarlyExit == mpc = "exit" => (ppc = "dead" /\ wpc = "dead")
 NoPartialPipeline == (AnyDead /\ mb["M"] = <<>> /\ mpc = "recv") => FALSE
 TypeOK == /\ ppc \in {"start", "top", "query", "send", "wait", "drop", "closing", "dead"}
           /\ wpc \in {"start", "recv", "drop", "closing", "dead"}
-          /\ mpc \in {"recv", "bcast", "joinP", "joinW", "exit"}
+          /\ mpc \in {"recv", "bcast", "join", "exit"}
 =============================================================================
